@@ -12,13 +12,17 @@
  *                   (the worker's own 0,1,2 are private files 61,62,63; the result line
  *                   goes to a close-on-exec copy of stdout at 250+)
  *   B<sig>          block signal sig in the loop thread before anything is spawned
+ *   c<fd>           close descriptor fd (0, 1 or 2) in the parent
+ *   V<r>,<e>,<s>    setresgid(r, e, s) in the parent;  U<r>,<e>,<s>  setresuid(r, e, s)
+ *                   (keep effective or saved 0; put V before U)
  *   r               report pipe: write end 100 (inheritable), read end 101
  *   g<n>            gate n: read end 110+2n (inheritable), write end 111+2n
  *   S<h>:<stdio>:<action>:<gate|->:<flags>   uv_spawn of child h
  *        stdio: comma list of i | p | h<fd> | b   ("-" = stdio_count 0)
  *        action: x<code> | s<sig>
  *        flags: R report, E nonexistent file, N no exit_cb, p pipe2 fails,
- *               f fork fails, s<k> k-th socketpair fails  ("-" = none)
+ *               f fork fails, s<k> k-th socketpair fails, u<uid> UV_PROCESS_SETUID,
+ *               g<gid> UV_PROCESS_SETGID  ("-" = none)
  *   G<n> release gate n      A<h> wait until child h is a zombie
  *   R uv_run(NOWAIT)         T<n> 1 ms timer releasing gate n
  *   D uv_run(ONCE) until every child that is on its way out (no gate, gate released or
@@ -38,6 +42,7 @@
 #include <sys/socket.h>
 #include <sys/resource.h>
 #include <time.h>
+#include <grp.h>
 #include "uv.h"
 #include "uv-common.h"
 #include "unix/internal.h"
@@ -91,6 +96,12 @@ static int child_main(int argc, char** argv) {
         (void) r;
       }
     }
+    {
+      uid_t ur, ue, us; gid_t gr, ge, gs;
+      getresuid(&ur, &ue, &us); getresgid(&gr, &ge, &gs);
+      n += snprintf(buf + n, sizeof buf - n, "|%u.%u.%u|%u.%u.%u|%d", (unsigned) ur, (unsigned) ue,
+                    (unsigned) us, (unsigned) gr, (unsigned) ge, (unsigned) gs, getgroups(0, NULL));
+    }
     { ssize_t r = write(rfd, buf, n); (void) r; }
     close(rfd);
   }
@@ -139,6 +150,23 @@ static int cur_spawn = -1;     /* child being spawned (for the fork wrapper) */
 static int inj_eintr, inj_sp = -1, inj_pipe, inj_fork, sp_calls;
 static int scan_last = -1, scan_last_eintr;
 static int nfiles_seen[64];
+
+/* abort() inside libuv (an assertion of an assert-enabled build): say where, flush, leave */
+static void on_abort(int sig) {
+  char msg[256];
+  char path[4300];
+  int n = 0, fd, i;
+  (void) sig;
+  file_path(path, sizeof path, 63);
+  fd = open(path, O_RDONLY);
+  if (fd >= 0) { n = (int) read(fd, msg, sizeof msg - 1); close(fd); }
+  if (n < 0) n = 0;
+  msg[n] = 0;
+  for (i = 0; i < n; i++) if (msg[i] == ' ' || msg[i] == '\n' || msg[i] == '\t') msg[i] = '_';
+  OUT("abort:%d:%s \n", cur_spawn, n ? msg : "-");
+  { ssize_t k = write(resfd, out, outn); (void) k; }
+  _exit(0);
+}
 
 static int h_of_pid(pid_t pid) {
   int i;
@@ -235,7 +263,7 @@ static void place(int tmp, int fd, int cx) {
 static void do_spawn(char* tok) {
   /* S<h>:<stdio>:<action>:<gate>:<flags> */
   char *f[5], *save = NULL, *s;
-  int i, h, n = 0, gate, report = 0, bad_exec = 0, nocb = 0, r;
+  int i, h, n = 0, gate, report = 0, bad_exec = 0, nocb = 0, r, set_uid = -1, set_gid = -1;
   uv_process_options_t opt;
   uv_stdio_container_t stdio[MAXSLOT];
   char rfd_s[16], gfd_s[16];
@@ -252,6 +280,8 @@ static void do_spawn(char* tok) {
     else if (*s == 'p') inj_pipe = 1;
     else if (*s == 'f') inj_fork = 1;
     else if (*s == 's') { inj_sp = atoi(s + 1); while (s[1] >= '0' && s[1] <= '9') s++; }
+    else if (*s == 'u') { set_uid = atoi(s + 1); while (s[1] >= '0' && s[1] <= '9') s++; }
+    else if (*s == 'g') { set_gid = atoi(s + 1); while (s[1] >= '0' && s[1] <= '9') s++; }
   }
   memset(&opt, 0, sizeof opt);
   memset(stdio, 0, sizeof stdio);
@@ -277,6 +307,14 @@ static void do_spawn(char* tok) {
   opt.stdio = stdio;
   opt.stdio_count = n;
   opt.exit_cb = nocb ? NULL : exit_cb;
+  if (set_uid >= 0) { opt.flags |= UV_PROCESS_SETUID; opt.uid = set_uid; }
+  if (set_gid >= 0) { opt.flags |= UV_PROCESS_SETGID; opt.gid = set_gid; }
+  {
+    uid_t ur, ue, us; gid_t gr, ge, gs;
+    getresuid(&ur, &ue, &us); getresgid(&gr, &ge, &gs);
+    OUT("I%d:%u.%u.%u/%u.%u.%u ", h, (unsigned) ur, (unsigned) ue, (unsigned) us,
+        (unsigned) gr, (unsigned) ge, (unsigned) gs);
+  }
   procs[h] = calloc(1, sizeof(uv_process_t));
   procs[h]->data = (void*) (intptr_t) h;
   gate_of[h] = gate;
@@ -328,6 +366,7 @@ static void run_case(char* line) {
   int nullfd;
 
   alarm(6);
+  signal(SIGABRT, on_abort);
   resfd = fcntl(1, F_DUPFD_CLOEXEC, 250);
   for (fd = 3; fd < 1024; fd++) if (fd != resfd) close(fd);
   snprintf(w_dir, sizeof w_dir, "%s/w%d", g_dir, (int) getpid());
@@ -366,6 +405,9 @@ static void run_case(char* line) {
     scan_last = -1;
     switch (tok[0]) {
     case 'L': break;
+    case 'c': a = atoi(tok + 1); if (a >= 0 && a <= 2) close(a); break;
+    case 'V': { int x, y, z; if (sscanf(tok + 1, "%d,%d,%d", &x, &y, &z) == 3 && setresgid(x, y, z) != 0) OUT("setresgid-failed:%d ", errno); break; }
+    case 'U': { int x, y, z; if (sscanf(tok + 1, "%d,%d,%d", &x, &y, &z) == 3 && setresuid(x, y, z) != 0) OUT("setresuid-failed:%d ", errno); break; }
     case 'B': {
       sigset_t set;
       sigemptyset(&set);
@@ -490,6 +532,7 @@ static void run_case(char* line) {
   }
 
   /* teardown: let everybody go, collect what libuv left behind */
+  if (setresuid(-1, 0, -1) != 0 || setresgid(-1, 0, -1) != 0) OUT("cannot-regain-root ");
   for (i = 0; i < 32; i++) release_gate(i);
   cur_spawn = -2;
   {
